@@ -85,4 +85,20 @@ def geEx : Obj := mkObj (geSchema 2)
 /-- every field name is a leaf except `hyperparams` -/
 def ty (k : String) : Bool := k == "hyperparams"
 
+/-- base classes: a grouped taxa × variant matrix (2 × 3) with labels on both axes -/
+def tvEx : Obj := mkObj tvmatSchema
+  [("mat", f64 [2, 3] [1, mhalf, 3, q54, 0, 2]), ("taxa", strs ["βb", "tå"]), ("taxa_grp", i64 [2] [1, 2]),
+   ("vrnt_chrgrp", i64 [3] [1, 1, 2]), ("vrnt_phypos", i64 [3] [10, 20, 5]), ("vrnt_name", strs ["m1", "m2", "m3"]),
+   ("vrnt_mask", bools [1, 0, 1]),
+   ("taxa_grp_name", i64 [2] [1, 2]), ("taxa_grp_stix", i64 [2] [0, 1]),
+   ("taxa_grp_spix", i64 [2] [1, 2]), ("taxa_grp_len", i64 [2] [1, 1]),
+   ("vrnt_chrgrp_name", i64 [2] [1, 2]), ("vrnt_chrgrp_stix", i64 [2] [0, 2]),
+   ("vrnt_chrgrp_spix", i64 [2] [2, 3]), ("vrnt_chrgrp_len", i64 [2] [2, 1])]
+
+/-- a progeny covariance matrix (1 × 1 taxa, 2 × 2 traits) and a bare matrix -/
+def sq4Ex : Obj := mkObj sq4Schema
+  [("mat", f64 [1, 1, 2, 2] [1, half, half, 2]), ("taxa", strs ["日本"]), ("trait", strs ["yld", "hté"])]
+
+def dmEx : Obj := mkObj dmatSchema [("mat", f64 [2, 2] [1, 2, 3, 5])]
+
 end Store.Ex
